@@ -2846,7 +2846,8 @@ def allclose_units(actual, desired, rtol=1e-7, atol=0, **kwargs):
     # to avoid spurious errors
     act = act.value
     des = des.value
-    rt = rt.value
+    # a dimensionless rtol may still carry a scale (e.g. percent)
+    rt = rt.value * rt.units.base_value
     at = at.value
 
     return np.allclose(act, des, rt, at, **kwargs)
